@@ -451,8 +451,25 @@ class Program:
         ci = self.cls(cls_name)
         fi = self.find_method(ci.qname, meth)
         if fi is None:
+            fi = self.relocated(ci.module, meth)
+        if fi is None:
             raise AnalysisError("anchor method not found: %s.%s" % (cls_name, meth))
         return fi
+
+    def relocated(self, module: str, short: str) -> Optional[FuncInfo]:
+        """A private helper is not an anchor by its place: when it is no longer where the rules knew it (turned into a
+        module-level function, moved to another class of the module), the unique function of that name in the module."""
+        if not short.startswith("_") or short.endswith("__"):
+            return None
+        cands = [f for f in self.functions.values() if f.module == module and f.name == short]
+        return cands[0] if len(cands) == 1 else None
+
+    def private(self, qname: str) -> Optional[FuncInfo]:
+        """Private function by qualified name, following it through a move inside its module (see relocated)."""
+        if qname in self.functions:
+            return self.functions[qname]
+        mod = next((m for m in sorted(self.modules, key=len, reverse=True) if qname.startswith(m + ".")), None)
+        return self.relocated(mod, qname.rsplit(".", 1)[-1]) if mod else None
 
     # ------------------------------------------------------------- constants
     def const(self, modname: str, name: str):
